@@ -599,6 +599,8 @@ def run(ck, build, only_c04=False):
     for f in aeadlib.cipher_fns(mod, ("aead", "siv")):
         if not f.name.endswith("_decrypt"):
             continue
+        from . import modecommon as _mc
+        _mc.keyinit_rule(ck, f, "R-C03-KEY", label)
         try:
             before = len(ck.obligations)
             aeadlib.check_cipher(ck, mod, f, label, {"SENS": "R-C03-SENS", "KEYINJ": "R-C03-KEY"})
